@@ -74,12 +74,20 @@ def write_model(system, model, model_path,
     _increment_backups(model, root, max_backups)
 
     serializer = _get_serializer(version)
-    serializer.ModelWriter(system, model, root,
-                           is_zip=is_zip,
-                           log_input=log_input,
-                           compression=compression,
-                           compresslevel=compresslevel
-                           ).write_model()
+    try:
+        serializer.ModelWriter(system, model, root,
+                               is_zip=is_zip,
+                               log_input=log_input,
+                               compression=compression,
+                               compresslevel=compresslevel
+                               ).write_model()
+    except:
+        if max_backups and not is_zip and root.is_dir():
+            # root was created by this call (an existing one was renamed
+            # aside): a partly written tree must not be rotated into the
+            # backups like a saved model by the next save
+            shutil.rmtree(root, ignore_errors=True)
+        raise
 
     if model.path != root:
         model.path = root
